@@ -141,6 +141,14 @@ theorem endFlushes_marked (sid : StateId) (e : Effect) {me : Sess} (h : Snap.Mar
     · exact Sess.flush_marked sid false (Sess.flush_marked sid p h)
     · exact Sess.flush_marked sid p h
 
+theorem closeEnd_marked (sid : StateId) {me : Sess} (h : Snap.Marked me.snap) : Snap.Marked (me.closeEnd sid).1.snap := by
+  unfold Sess.closeEnd
+  simp only
+  split
+  · apply Sess.flush_marked
+    exact Gluon.flush_marked true true sid _ h
+  · exact Snap.marked_nil
+
 theorem marked_setSess {s : Sys} (h : Sys.Marked s) (i : Nat) {x : Sess} (hx : Snap.Marked x.snap) :
     Sys.Marked (s.setSess i x) := by
   intro me hme
@@ -184,6 +192,35 @@ theorem step_marked {s : Sys} (h : Sys.Marked s) (op : SysOp) : Sys.Marked (step
               if j = i then sj.applyAll (sidOf i) false e.silent e.ups else sj.enqueue e.ups)[i]? with
           | none => simpa using hme
           | some y => simpa using hall y (List.mem_of_getElem? hg)
+  | close i =>
+    simp only [step]
+    cases hi : s.sess[i]? with
+    | none => exact h
+    | some me =>
+      have hme : Snap.Marked me.snap := h me (List.mem_of_getElem? hi)
+      simp only
+      cases he : effect s.idx me (sidOf i) .expunge with
+      | none => exact h
+      | some e =>
+        simp only
+        have hall : ∀ x ∈ (s.sess.mapIdx fun j sj =>
+            if j = i then sj.applyAll (sidOf i) false e.silent e.ups else sj.enqueue e.ups), Snap.Marked x.snap := by
+          intro x hx
+          obtain ⟨j, hj, rfl⟩ := List.mem_mapIdx.mp hx
+          split
+          · rw [Sess.applyAll_snap]; exact h _ (List.getElem_mem hj)
+          · exact h (s.sess[j]) (List.getElem_mem hj)
+        have hme1 : Snap.Marked (((s.sess.mapIdx fun j sj =>
+            if j = i then sj.applyAll (sidOf i) false e.silent e.ups else sj.enqueue e.ups)[i]?).getD me).snap := by
+          cases hg : (s.sess.mapIdx fun j sj =>
+              if j = i then sj.applyAll (sidOf i) false e.silent e.ups else sj.enqueue e.ups)[i]? with
+          | none => simpa using hme
+          | some y => simpa using hall y (List.mem_of_getElem? hg)
+        intro me' hme'
+        simp only at hme'
+        rcases List.mem_or_eq_of_mem_set hme' with hm | rfl
+        · exact hall _ hm
+        · exact closeEnd_marked _ hme1
   | conn c =>
     simp only [step]
     intro me hme
